@@ -279,6 +279,24 @@ pub fn run(rep: &mut StageReport, tier: &str, seed: u64) {
         };
         cases.push(s);
     }
+    // every character the grammar's `\\w` admits (≈ 140 000), once in the namespace and once in the topic part
+    {
+        let re = regex::Regex::new(r"^\w$").unwrap();
+        let mut buf = [0u8; 4];
+        let mut n = 0u32;
+        for cp in 0x80u32..0x11_0000 {
+            let Some(c) = char::from_u32(cp) else { continue };
+            if !re.is_match(c.encode_utf8(&mut buf)) {
+                continue;
+            }
+            n += 1;
+            if tier != "thorough" && n % 2 == 0 {
+                cases.push(format!("/ab{}cd/topic", c));
+            } else {
+                cases.push(format!("/ab{}cd/x-{}-y", c, c));
+            }
+        }
+    }
     // history: the verdict on a string must not depend on which strings were judged before it — names recombined
     // from the parts of names judged earlier (most of them accepted), and the fixed cases once more at the end
     {
